@@ -1,7 +1,7 @@
 (* C12 -- Extracted HTTP APIs are exactly the annotated Spring handler methods.
    Only statements live here; every proof is [exact <lemma of Proofs/ApiProofs.v>]. *)
 From Coq Require Import String List Bool Arith.
-From Coca Require Import Lib.Str Model.ApiScan Model.ApiSpec Proofs.ApiProofs Proofs.ApiTotalProofs.
+From Coca Require Import Lib.Str Model.ApiScan Model.ApiSpec Proofs.ApiProofs Proofs.ApiTotalProofs Proofs.ApiExactProofs.
 Import ListNotations.
 Open Scope string_scope.
 
@@ -49,3 +49,35 @@ Print Assumptions C12_example_entries.
 Example C12_example_non_controller : unit_has_no_controller ex_plain.
 Proof. exact ex_plain_no_controller. Qed.
 Print Assumptions C12_example_non_controller.
+
+(* 4. EXACTNESS for every conventional controller: @RestController / @Controller before or after an optional
+      class-level @RequestMapping (shorthand, value=, bare), any number of handlers, each with one mapping annotation
+      in shorthand, value=, value= + method= (either order) or bare form, other annotations in front of it, any
+      parameters with their own annotations (the last @RequestBody parameter names the body type), fields and plain
+      methods in between: the scan yields exactly one entry per handler, in order, with the verb, the class's own base
+      path followed by the method's path, the body type, and the handler's package, class and method name.
+      Hypotheses ([ctl_ok], decidable): verbs are GET / PUT / POST / DELETE, paths hold no double quote, the other
+      annotations are not mapping annotations *)
+Theorem C12_controller_exact : forall c,
+    ctl_ok c = true ->
+    unit_apis (unit_of c) = Some (entries_of (base_of c) (k_pkg c) (k_name c) (k_members c)).
+Proof. exact controller_exact. Qed.
+Print Assumptions C12_controller_exact.
+
+(* 4b. ... and the decider of the check (the independent statement of ApiSpec.v) accepts that result *)
+Theorem C12_controller_meets_spec : forall c,
+    ctl_ok c = true ->
+    exists obs, unit_apis (unit_of c) = Some obs /\ c12_verdict [xclass_of c] obs = [].
+Proof. exact controller_meets_spec. Qed.
+Print Assumptions C12_controller_meets_spec.
+
+Example C12_example_every_form :
+  ctl_ok ex_ctl = true /\
+  option_map observed_rows (unit_apis (unit_of ex_ctl))
+  = Some [ entry_row "GET" "/books/{id}" "com.web" "BookController" "get" "";
+           entry_row "POST" "/books/new" "com.web" "BookController" "create" "BookDto";
+           entry_row "PUT" "/books/u" "com.web" "BookController" "update" "";
+           entry_row "DELETE" "/books/d" "com.web" "BookController" "remove" "B";
+           entry_row "GET" "/books" "com.web" "BookController" "all" "" ].
+Proof. exact ex_ctl_ok. Qed.
+Print Assumptions C12_example_every_form.
